@@ -53,6 +53,8 @@ type SymArrVal struct {
 	// C, when non-nil, is the authoritative element vector of a small fixed-size array that
 	// has only been accessed at constant indices so far (A is unused then).
 	C []*Term
+	// optional tighter range for NeedRange arrays
+	RLo, RHi *big.Int
 }
 
 const maxConcArr = 8192
